@@ -111,7 +111,21 @@ def walk(edit, from_node, to_node, opt, fails, path='$', depth=0):
     if (tot_l, tot_u) != (b.lower_bound, b.upper_bound):
         cls = f'c03-sum-mismatch:{name}'
         if name == 'MultiSetEdit' and len(edit.to_remove) != len(edit.to_insert):
-            cls += ':leftover'      # unmatched items on one side (see known findings)
+            # the listed finding: bounds() adds the LARGEST |to_remove|-|to_insert| removals (insertions), not the ones that
+            # edits() emits.  Only a reported cost that equals that prediction is filed under it.
+            try:
+                left = [s for s in subs if kind(s, E) != 'pair']
+                rest = sum(s.bounds().upper_bound for s in subs if kind(s, E) == 'pair')
+                pool = edit.to_remove if len(edit.to_remove) > len(edit.to_insert) else edit.to_insert
+                n_left = abs(len(edit.to_remove) - len(edit.to_insert))
+                sizes = sorted((x.total_size + 1 for x in pool.elements()), reverse=True)
+                predicted = rest + sum(sizes[:n_left])
+                if (b.lower_bound, b.upper_bound) == (predicted, predicted) and len(left) == n_left:
+                    cls += ':leftover'
+                else:
+                    cls += ':leftover-unexplained'
+            except Exception:
+                cls += ':leftover-unexplained'
         fails.append({'what': f"{path}: {name} reports cost {b} but its listed sub-edits sum to [{tot_l}, {tot_u}] "
                               f"({[(type(s).__name__, str(s.bounds())) for s in subs]})", 'class': cls})
     # C10: option restrictions
